@@ -238,6 +238,16 @@ class LibMap:
             pointee = ct
         if pointee.startswith("struct vf_seq_"):
             return self.seq_call(em, n, pointee[len("struct vf_seq_"):], self.obj_ptr(em, base, arrow), name, args)
+        if pointee.startswith("struct vf_arr_"):
+            # std::array<T,N> -> struct vf_arr_T_N { T a[N]; }
+            o = "%s->a" % em.paren(self.obj_ptr(em, base, arrow))
+            if name == "data" or name in ("begin", "cbegin"):
+                return "(%s)" % o
+            if name in ("at",) and len(args) == 1:
+                return "%s[%s]" % (o, em.E(args[0]))
+            if name == "size":
+                return "((unsigned long)%s)" % em.tm.arr_insts[pointee[len("struct vf_arr_"):]][1]
+            return None
         if pointee.startswith("struct vf_ilist_"):
             return self.ilist_call(em, n, pointee[len("struct vf_ilist_"):], self.obj_ptr(em, base, arrow), name, args)
         if pointee == "struct vf_ihook":
@@ -352,6 +362,25 @@ class LibMap:
             return "%sbegin(%s)" % (f, p)
         if name in ("end", "cend"):
             return "%send(%s)" % (f, p)
+        if name == "sort" and len(args) <= 1:
+            # std::list::sort() / sort(std::greater<T>()) / sort(std::less<T>()): scalar elements only
+            ect = em.tm.seq_insts.get(tag, "struct")
+            if is_scalar(ect):
+                order = "asc"
+                if args:
+                    ft = em.tm.resolve(strip_ref(em.ptype(args[0])))
+                    if ft.kind == "named" and ft.last in ("greater", "less") and (ft.name or "").startswith("std::"):
+                        order = "desc" if ft.last == "greater" else "asc"
+                    else:
+                        return None
+                self.need.add(("seq_sort", tag))
+                return "%ssort_%s(%s)" % (f, order, p)
+            return None
+        if name == "unique" and not args:
+            if is_scalar(em.tm.seq_insts.get(tag, "struct")):
+                self.need.add(("seq_sort", tag))
+                return "%sunique(%s)" % (f, p)
+            return None
         if name == "data":
             return "%sbegin(%s)" % (f, p)
         if name == "erase":
@@ -363,7 +392,8 @@ class LibMap:
         if name == "resize":
             if len(args) == 1:
                 return "%sresize(%s, %s)" % (f, p, em.E(args[0]))
-            return "%sresize_fill(%s, %s, %s)" % (f, p, em.E(args[0]), em.E(args[1]))
+            deep = em.tm.seq_insts.get(tag, "").startswith("struct vf_seq_")  # vector of vectors: each new slot owns a copy
+            return "%sresize_fill%s(%s, %s, %s)" % (f, "_deep" if deep else "", p, em.E(args[0]), em.E(args[1]))
         if name == "assign" and len(args) == 2:
             return "%sassign_fill(%s, %s, %s)" % (f, p, em.E(args[0]), em.E(args[1]))
         if name in ("reserve", "shrink_to_fit"):
@@ -446,6 +476,36 @@ class LibMap:
             if is_scalar(ct):
                 self.minmax.add((name, ct))
                 return "vf_%s_%s(%s, %s)" % (name, ident(ct), em.E(args[0]), em.E(args[1]))
+            if ct.startswith("struct ") and not ct.startswith("struct vf_") and not ct.endswith("*"):
+                # class type ordered by its own operator<=> (a unit or a callee): std::max(a,b) = (a < b) ? b : a and
+                # std::min(a,b) = (b < a) ? b : a, with x < y rewritten by the compiler to (x <=> y) < 0
+                tag = ct[len("struct "):]
+                cmpf = em.fn_cname(tag, "operator<=>", None)
+                em.note_proto(cmpf, "int", ["struct %s*" % tag, "struct %s*" % tag],
+                              "%s::operator<=> (used by std::%s)" % (tag, name))
+                em.callees.setdefault(cmpf, "%s::operator<=>" % tag)
+                em.callflag = True
+                hn = "vf_%s_%s" % (name, tag)
+                test = "%s(a, b) < 0" % cmpf if name == "max" else "%s(b, a) < 0" % cmpf
+                text = "static inline %s* %s(%s* a, %s* b) { return (%s) ? b : a; }" % (ct, hn, ct, ct, test)
+                if text not in em.lifted:
+                    em.lifted.append(text)
+                return "(*%s(%s, %s))" % (hn, em.addr_of(args[0]), em.addr_of(args[1]))
+        if name == "transform" and len(args) in (4, 5) and skip(args[-1]).get("kind") == "LambdaExpr":
+            # std::transform(first1, last1, [first2,] out, <captureless lambda>) over pointer iterators: an index loop
+            # calling the lifted lambda; the loop is loop number k of the calling unit (macro VF_LOOP_<unit>_<k>)
+            cts = [self.mapped(em, a) for a in args[:-1]]
+            if all(c and c.endswith("*") for c in cts):
+                m = em.loop_macro()
+                fn = em.lift_lambda_fn(skip(args[-1]))
+                hn = "vf_transform_" + fn
+                two = len(args) == 5
+                ps = ["%s b1" % cts[0], "%s e1" % cts[1]] + (["%s b2" % cts[2]] if two else []) + ["%s out" % cts[-1]]
+                call = "%s(b1[i], b2[i])" % fn if two else "%s(b1[i])" % fn
+                em.lifted.append("#ifndef %s\n#define %s\n#endif\nstatic inline %s %s(%s)\n{\n  size_t n = (size_t)(e1 - b1);\n"
+                                 "  for (size_t i = 0; i < n; i++)\n    %s\n  { out[i] = %s; }\n  return out + n;\n}\n"
+                                 % (m, m, cts[-1], hn, ", ".join(ps), m, call))
+                return "%s(%s)" % (hn, ", ".join(em.E(a) for a in args[:-1]))
         if name == "make_exception_ptr" and len(args) == 1:
             # std::make_exception_ptr(E(...)): only the kind of the exception survives (payload dropped, DESIGN 3.2)
             t = peel(em.tm, em.ptype(args[0]))
@@ -473,6 +533,30 @@ class LibMap:
                 if tag in em.tm.seq_insts or True:
                     em.tm.seq_insts.setdefault(tag, ct[:-1])
                     return "vf_seq_%s_%s_in(%s, %s, %s)" % (tag, name, em.E(args[0]), em.E(args[1]), em.E(args[2]))
+        if name in ("min_element", "max_element") and len(args) == 2:
+            ct = self.mapped(em, args[0])
+            if ct and ct.endswith("*") and is_scalar(ct[:-1]):
+                tag = em.tm.tag(ct[:-1])
+                em.tm.seq_insts.setdefault(tag, ct[:-1])
+                return "vf_seq_%s_%s_in(%s, %s)" % (tag, name, em.E(args[0]), em.E(args[1]))
+        if name == "sort" and len(args) in (2, 3):
+            # std::sort over a modelled range of scalars, natural order or std::greater<> / std::less<>
+            ct = self.mapped(em, args[0])
+            desc = 0
+            if len(args) == 3:
+                cmp_t = qt(args[2]) or ""
+                if re.match(r"(const )?std::greater<", cmp_t):
+                    desc = 1
+                elif not re.match(r"(const )?std::less<", cmp_t):
+                    return None
+            if ct and ct.endswith("*") and is_scalar(ct[:-1]):
+                tag = em.tm.tag(ct[:-1])
+                em.tm.seq_insts.setdefault(tag, ct[:-1])
+                return "vf_seq_%s_sort_in(%s, %s, %d)" % (tag, em.E(args[0]), em.E(args[1]), desc)
+        if name == "make_pair" and len(args) == 2:
+            ct = self.mapped(em, n)
+            if ct and ct.startswith("struct vf_pair_"):
+                return "((%s){%s, %s})" % (ct, em.E(args[0]), em.E(args[1]))
         if name == "find" and len(args) == 2:
             # range form (boost::range::find / std::ranges::find) over a sequence container: find(begin, end, v)
             ct = self.mapped(em, args[0])
@@ -584,6 +668,8 @@ class LibMap:
             return em.E(args[0])
         if ct.startswith("struct vf_seq_"):
             tag = ct[len("struct vf_seq_"):]
+            while args and args[-1].get("kind") == "CXXDefaultArgExpr":
+                args = args[:-1]  # defaulted allocator argument
             if not args:
                 return "vf_seq_%s_make()" % tag
             if len(args) == 1:
@@ -621,10 +707,17 @@ class LibMap:
                 return "((%s){0})" % ct
             if self.mapped(em, args[0]) == ct:
                 return em.E(args[0])
+            if "nullopt_t" in (qt(args[0]) or ""):
+                return "((%s){0})" % ct  # optional(std::nullopt), possibly through a copy of the nullopt_t object
             if skip(args[0]).get("kind") == "DeclRefExpr" and \
                     skip(args[0])["referencedDecl"].get("name") == "nullopt":
                 return "((%s){0})" % ct
             return "((%s){1, %s})" % (ct, em.E(args[0]))
+        if ct == "struct vf_lock":
+            if len(args) == 1 and self.mapped(em, args[0]) == ct:
+                return em.E(args[0])
+            em.dropped.append("lock")
+            return "((struct vf_lock){%d})" % (1 if args else 0)
         if ct == "struct vf_fn":
             if not args:
                 return "((struct vf_fn){0})"
@@ -635,6 +728,8 @@ class LibMap:
             if not args:
                 return "%s_make()" % ct[len("struct "):]
             if len(args) == 1 and self.mapped(em, args[0]) == ct:
+                if args[0].get("valueCategory") == "lvalue" and ct.startswith("struct vf_set_"):
+                    return "%s_copy(%s)" % (ct[len("struct "):], em.addr_of(args[0]))  # copy construction: own storage
                 return em.E(args[0])
             return None
         # plain class: copy/move construction = struct copy when declared POD in the config
